@@ -32,7 +32,7 @@ static unsigned lt_hash(void *p) { uintptr_t x = (uintptr_t)p; x ^= x >> 17; x *
 
 static void lt_insert(void *p, size_t sz)
 {
-    pthread_mutex_lock(&lt_mu);
+    HX_LOCK(&lt_mu);
     unsigned h = lt_hash(p);
     for (unsigned k = 0; k < LT_SIZE; ++k) {
         lt_ent *e = &lt[(h + k) & (LT_SIZE - 1)];
@@ -48,7 +48,7 @@ static void lt_insert(void *p, size_t sz)
 static int lt_remove(void *p)
 {
     int found = 0;
-    pthread_mutex_lock(&lt_mu);
+    HX_LOCK(&lt_mu);
     unsigned h = lt_hash(p);
     for (unsigned k = 0; k < LT_SIZE; ++k) {
         lt_ent *e = &lt[(h + k) & (LT_SIZE - 1)];
@@ -58,17 +58,17 @@ static int lt_remove(void *p)
     pthread_mutex_unlock(&lt_mu);
     return found;
 }
-long live_count(void) { long c = 0; pthread_mutex_lock(&lt_mu);
+long live_count(void) { long c = 0; HX_LOCK(&lt_mu);
     for (unsigned k = 0; k < LT_SIZE; ++k) if (lt[k].p && lt[k].p != TOMB && lt[k].epoch == lt_epoch) c++;
     pthread_mutex_unlock(&lt_mu); return c; }
-long live_bytes(void) { long c = 0; pthread_mutex_lock(&lt_mu);
+long live_bytes(void) { long c = 0; HX_LOCK(&lt_mu);
     for (unsigned k = 0; k < LT_SIZE; ++k) if (lt[k].p && lt[k].p != TOMB && lt[k].epoch == lt_epoch) c += (long)lt[k].sz;
     pthread_mutex_unlock(&lt_mu); return c; }
 void live_snapshot(long *count, long *bytes) { *count = live_count(); *bytes = live_bytes(); }
-void live_mark_epoch(void) { pthread_mutex_lock(&lt_mu); lt_epoch++; pthread_mutex_unlock(&lt_mu); }
+void live_mark_epoch(void) { HX_LOCK(&lt_mu); lt_epoch++; pthread_mutex_unlock(&lt_mu); }
 int ptr_in_tracked_block(const void *q)
 {
-    int r = 0; pthread_mutex_lock(&lt_mu);
+    int r = 0; HX_LOCK(&lt_mu);
     for (unsigned k = 0; k < LT_SIZE && !r; ++k)
         if (lt[k].p && lt[k].p != TOMB && (const char*)q >= (const char*)lt[k].p && (const char*)q < (const char*)lt[k].p + lt[k].sz) r = 1;
     pthread_mutex_unlock(&lt_mu); return r;
@@ -82,7 +82,7 @@ static const char *symname(void *addr, char *tmp, size_t n)
 int live_describe(char *buf, size_t len, int max)
 {
     int shown = 0; size_t off = 0; buf[0] = 0;
-    pthread_mutex_lock(&lt_mu);
+    HX_LOCK(&lt_mu);
     for (unsigned k = 0; k < LT_SIZE && shown < max; ++k) {
         lt_ent *e = &lt[k];
         if (!e->p || e->p == TOMB || e->epoch != lt_epoch) continue;
@@ -209,4 +209,21 @@ int xerbla_(char *srname, int *info)
     snprintf(g_xerbla_name, sizeof g_xerbla_name, "%s", srname);
     g_xerbla_pos = *info;
     return 0;
+}
+
+/* ---------------------------------------------------------------- pthread_mutex_lock under the controlled scheduler
+ * A worker that holds the scheduling token must never block in the kernel on a library mutex held by a worker that is waiting
+ * for the token.  Library objects therefore get a try-lock loop whose failed attempts are reported to the controller as spin
+ * steps (the thread is treated as blocked until some thread makes progress).  This also makes it safe for hook points inside
+ * library critical sections to be yield points. */
+int __real_pthread_mutex_lock(pthread_mutex_t *);
+extern int ctl_mutex_wait_step(void);      /* sched.c: returns 0 when the caller is not a controlled worker */
+int __wrap_pthread_mutex_lock(pthread_mutex_t *m)
+{
+    if (!g_track) return __real_pthread_mutex_lock(m);
+    for (;;) {
+        int r = pthread_mutex_trylock(m);
+        if (r != EBUSY) return r;
+        if (!ctl_mutex_wait_step()) return __real_pthread_mutex_lock(m);
+    }
 }
